@@ -271,6 +271,7 @@ impl<K: Kit> Drv<K> {
             l.sample_budget = None;
         }
         self.mark(Ev::Call(name));
+        crate::watch::call_begin(name);
     }
 
     pub fn setup(&mut self, inst: Installed<K>) -> Res {
@@ -286,6 +287,7 @@ impl<K: Kit> Drv<K> {
         });
         self.checker_problem = Some(inst.problem.clone());
         self.current = Some(inst);
+        crate::watch::call_end();
         self.mark(Ev::Ret("setup"));
         match r {
             Ok(()) => Res::Done,
@@ -305,6 +307,7 @@ impl<K: Kit> Drv<K> {
         });
         // the validity checker stays the one given to setup
         self.current = Some(inst);
+        crate::watch::call_end();
         self.mark(Ev::Ret("set_pd"));
         match r {
             Ok(()) => Res::Done,
@@ -329,6 +332,7 @@ impl<K: Kit> Drv<K> {
         });
         self.last_call_clock_reads = oxmpl::verif::reads() - reads0;
         self.last_call_first_read = oxmpl::verif::first_read();
+        crate::watch::call_end();
         self.mark(Ev::Ret("construct_roadmap"));
         match r {
             Ok(Ok(())) => Res::Done,
@@ -360,6 +364,7 @@ impl<K: Kit> Drv<K> {
         });
         self.last_call_clock_reads = oxmpl::verif::reads() - reads0;
         self.last_call_first_read = oxmpl::verif::first_read();
+        crate::watch::call_end();
         self.mark(Ev::Ret("solve"));
         match r {
             Ok(Ok(path)) => Res::Path(path.0.iter().map(|s| K::flat(s)).collect()),
